@@ -237,6 +237,72 @@ def check_C13(tier):
                            "layout and type id are judged by RtmpMsg.tla")
 
 
+# ------------------------------------------------------------------------------------------------
+# sessions
+
+def sess_logs(wd, suite, kind, tier, shards=8):
+    vlib.build_harness()
+
+    def gen(i):
+        path = os.path.join(wd, "%s_%s_%d.ndjson" % (suite, kind, i))
+        p = vlib.harness([suite, kind, i, shards, "--tier", tier, "--seed", vlib.seed(), "--out", path])
+        return path, vlib.last_json(p.stdout)
+    return vlib.parallel([(lambda i=i: gen(i)) for i in range(shards)], nproc=8)
+
+
+def sess_validate(out, module, logs, wd, take, tag):
+    res = vlib.parallel([(lambda pth=pth: vlib.validate_trace(module, pth, wd, {"Base": 65536},
+                                                               name=tag + "_" + os.path.basename(pth).replace(".ndjson", "")))
+                         for pth, _ in logs], nproc=8)
+    drift = 0
+    for (pth, info), r in zip(logs, res):
+        out.add_trace(r, runs=info.get("runs", 0))
+        out.cov["calls_driven"] = out.cov.get("calls_driven", 0) + info.get("steps", 0)
+        drift += len([v for v in r["verdicts"] if v["class"] == "PROBE"])
+        r["verdicts"] = [v for v in r["verdicts"] if v["class"] == "TOOL" or take(v)]
+        out.verdicts(r)
+    out.cov["spec_drift"] = out.cov.get("spec_drift", 0) + drift
+    return res
+
+
+SESS_ASSUME = ["session logs at message level: inbound messages are encoded and returned packets decoded by the library's own "
+               "chunk/message codec (judged separately by C06/C07/C13; C18 re-checks the returned bytes without that trust)",
+               "the read-only probe hook reports the session's state faithfully", "TLC; harness logger"]
+
+
+def check_C09(tier):
+    out = Outcome("C09", tier, "model_checking")
+    wd = vlib.workdir("C09")
+    r = vlib.model_check("MC_Server.tla", "MC_Server_full.cfg" if tier == "quick" else "MC_Server_big.cfg", wd, timeout=1500)
+    out.add_s1(r, "MC_Server (every history over the small alphabet; history variables restate C09; no depth bound)")
+    logs = sess_logs(wd, "server", "hist", tier)
+    sess_validate(out, "Trace_Server.tla", logs, wd, lambda v: v["class"] == "SRV", "c09")
+    sample_events(out, logs[0][0], ("In", "Call"), n=3)
+    out.assumptions = SESS_ASSUME
+    return out.finish(rule="random histories (5-40 steps after a warm-up of random depth) over every inbound message class "
+                           "(well-formed and malformed argument lists) and every application call with valid, stale and "
+                           "never-issued ids, on the real ServerSession; each call judged by SrvStep")
+
+
+def check_C17(tier):
+    out = Outcome("C17", tier, "model_checking")
+    wd = vlib.workdir("C17")
+    r = vlib.model_check("AckFlat.tla", "AckFlat_tlc.cfg", wd)
+    out.add_s1(r, "AckFlat (TLC, windows 1..6, call sizes 0..8)")
+    a1 = vlib.apalache("AckFlat.tla", wd, ["--cinit=CInit", "--init=Init", "--inv=Inv", "--next=NextSym", "--length=0"])
+    a2 = vlib.apalache("AckFlat.tla", wd, ["--cinit=CInit", "--init=IndInit", "--inv=Inv", "--next=NextSym", "--length=1"])
+    out.cov["apalache"] = {"inductive_invariant": "Inv (Conservation, Outstanding, ExactlyWhen, NothingBefore) for all windows "
+                           "1..2^32-1 and all call sizes: Init => Inv and Inv /\\ Next => Inv'", "wall_s": round(a1["wall"] + a2["wall"], 1)}
+    logs = sess_logs(wd, "server", "ack", tier) + sess_logs(wd, "client", "ack", tier)
+    sess_validate(out, "Trace_Server.tla", [x for x in logs if "server_" in x[0]], wd, lambda v: v["class"] == "ACK", "c17s")
+    sess_validate(out, "Trace_Client.tla", [x for x in logs if "client_" in x[0]], wd, lambda v: v["class"] == "ACK", "c17c")
+    sample_events(out, logs[0][0], ("In",), n=3)
+    out.assumptions = SESS_ASSUME + ["Apalache (SMT) for the unbounded inductive step"]
+    return out.finish(rule="both real sessions; windows {1,2,3,16,17,18,100,4096,4097,2^20,2^31,2^32-1}, re-announcements, call "
+                           "sizes around the thresholds; every input call judged by AckStep (exactly one leading "
+                           "acknowledgement carrying the byte count iff the window is reached)")
+
+
 def replay(path):
     with open(path) as f:
         body = json.load(f)
